@@ -30,12 +30,19 @@ def build():
     C.cls("RegisteredSwitch", file=SC, fields={})
     C.fn("RegisteredSwitch.__init__", inline=True)
 
-    SWITCH = ObjS("Switch", state=Int, hw_state=Int, invert=Int, last_change=Real, is_muted=Bool, name=Str, label=Str,
+    def same_machine(I, name):
+        """the switch belongs to the same machine (and clock) as the controller under proof"""
+        return I.read_field(I.frames[0].env["self"].ref, "machine")
+    SWITCH = ObjS("Switch", machine=Init(same_machine), state=Int, hw_state=Int, invert=Int, last_change=Real, is_muted=Bool, name=Str, label=Str,
                   platform=Opaque("Platform"), hw_switch=Opt(ObjS("HwSwitch", number=Opaque("Num"))))
-    C.cls("Switch", fields={})
-    C.ext("Switch.get_ms_since_last_change", result=Real,
-          ensures=["result == (this.machine.clock.now - self.last_change) * 1000.0"],
-          trusted_reason="mpf/devices/switch.py: (clock.get_time() - last_change) * 1000 (verified below)")
+    C.cls("Switch", file="mpf/devices/switch.py", fields=dict(machine=ObjS("MachineController", clock=ObjS("ClockBase")),
+                                                             last_change=Real),
+          check_bases=False)
+    C.fn("Switch.get_ms_since_last_change", params=dict(current_time=Opt(Real)), result=Real, pure=True,
+         ensures=[("elapsed ms since the last change, rounded to whole ms (half-even)",
+                   "result == round(((current_time if current_time is not None else self.machine.clock.now) "
+                   "- self.last_change) * 1000.0, 0)")],
+         modifies=[], raises={})
 
     def reg_init(I, name):
         """registered_switches: {switch: [handlers for state 0, handlers for state 1]} for the switch in scope"""
@@ -95,9 +102,6 @@ def build():
     C.fn("SwitchController._cancel_timed_handlers", params=dict(switch=SWITCH), external=True,
          emits=marker("cancel_timed", "switch"),
          trusted_reason="Part B: removes every pending deadline of the switch and its wake-up (bounded check)")
-    C.fn("SwitchController._call_handlers", params=dict(switch=SWITCH, state=Int), external=True,
-         emits=marker("call_handlers", "switch", "state"),
-         trusted_reason="Part B: dispatches the registered handlers of the new state (bounded check)")
     C.fn("SwitchController._add_timed_switch_handler", params=dict(switch=SWITCH, time=Real, timed_switch_handler=TupleS()),
          external=True, emits=lambda I, env, res: emit(I, "add_timed", switch=env["switch"], time=env["time"],
                                                        handler=env["timed_switch_handler"]),
@@ -132,11 +136,11 @@ def build():
     for nm, st in (("is_active", "1"), ("is_inactive", "0")):
         C.fn("SwitchController." + nm, params=dict(switch=SWITCH, ms=Opt(Num)), result=Bool,
              ensures=[("true iff in that state for at least ms",
-                       "result == (switch.state == %s and (not ms or ms <= (now() - switch.last_change) * 1000.0))" % st)],
+                       "result == (switch.state == %s and (not ms or ms <= round((now() - switch.last_change) * 1000.0, 0)))" % st)],
              modifies=[], raises={"AssertionError": "not self._initialized"})
     C.fn("SwitchController.is_state", params=dict(switch=SWITCH, state=Union(Bool, Int), ms=Opt(Num)), result=Bool,
          ensures=[("true iff in that state for at least ms",
-                   "result == (switch.state == state and (not ms or ms <= (now() - switch.last_change) * 1000.0))")],
+                   "result == (switch.state == state and (not ms or ms <= round((now() - switch.last_change) * 1000.0, 0)))")],
          modifies=[], raises={"AssertionError": "not self._initialized"})
 
     # ------------------------------------------------------------------ add_switch_handler_obj
@@ -275,6 +279,93 @@ def build():
                 cs.append(z3.Implies(m, I.truth(I.read_field(o, "cancelled"))))
         return VBool(z3.And(cs + [z3.BoolVal(True)]))
     C.helpers["removed_marked_cancelled"] = removed_marked_cancelled
+
+    # ---- _call_handlers (bounded: N registered handlers per state; all fields symbolic)
+    def reg_bounded_n(I, name):
+        sw = I.force(I.frames[0].env["switch"]).ref
+        lists = [I.fresh(ListOf(ObjS("RegisteredSwitch", ms=Real, callback=Fn, cancelled=Bool), N),
+                         "%s[sw][%d]" % (name, st)) for st in (0, 1)]
+        inner, ref = Ref(name + "[sw]"), Ref(name)
+        I.init_loc((inner, "$"), LConc(lists))
+        I.init_loc((ref, "$"), DConc(((sw, VList(inner)),)))
+        return VDict(ref)
+    CSELF = ObjS("SwitchController", registered_switches=Init(reg_bounded_n), _debug_to_console=Bool,
+                 _debug_to_file=Bool)
+
+    def entries_of(I, heap, state_idx):
+        return reg_lists(I, heap)[state_idx]
+
+    def on_opaque_call(I, fn, args, kwargs):
+        """rely: a switch handler may remove handlers (public API): `cancelled` flags can only go from False to
+        True; the flags seen by the rest of the dispatch are snapshotted into the trace event"""
+        fc0 = I.frames[0].fc
+        if fc0 is None or fc0.key != "SwitchController._call_handlers":
+            return None
+        snap = {}
+        for lst in reg_lists(I, I.heap):
+            for e in lst:
+                o = I.force(e).ref
+                was = I.truth(I.read_field(o, "cancelled"))
+                I.havoc_field(o, "cancelled")
+                now_ = I.truth(I.read_field(o, "cancelled"))
+                I.ctx.assume(z3.Implies(was, now_))
+                snap[o] = now_
+        I.trace[-1].args["cancelled_after"] = snap
+        return None
+    C.helpers["on_opaque_call"] = on_opaque_call
+
+    def dispatch_ok(I, state):
+        """walk the handlers registered at entry, in order: each one that is not cancelled when its turn comes
+        produces exactly one effect (an untimed handler is called, a timed one is armed for change time + hold
+        time); a handler cancelled by then produces none; nothing else happens"""
+        st = I.pyconst(I.force(state))
+        if st is MISSING:
+            return VBool(False)
+        sw = I.force(I.frames[0].env["switch"]).ref
+        ents = [I.force(e).ref for e in entries_of(I, I.old_heap, st)]
+        cur = {o: I.truth(I.read_field(o, "cancelled", heap=I.old_heap)) for o in ents}
+        E = [e for e in I.cur_trace() if e.name in ("callback", "add_timed")]
+        p = 0
+        cs = []
+        last_change = I.force(I.read_field(sw, "last_change", heap=I.old_heap)).t
+        for o in ents:
+            ms = I.force(I.read_field(o, "ms", heap=I.old_heap)).t
+            cbt = to_term(I.force(I.read_field(o, "callback", heap=I.old_heap)), Fn)
+            mine = False
+            if p < len(E):
+                ev = E[p]
+                if ev.name == "callback":
+                    mine = I.force(ev.args["fn"]).t.eq(cbt)
+                else:
+                    h = I.force(ev.args["handler"])
+                    mine = I.force(h.items[0]).t.eq(cbt)
+            if mine:
+                ev = E[p]
+                cs.append(z3.Not(cur[o]))
+                if ev.name == "callback":
+                    cs.append(ms == 0)
+                    cur.update(ev.args.get("cancelled_after", {}))
+                else:
+                    cs.append(ms != 0)
+                    cs.append(I.force(ev.args["time"]).t == last_change + ms / 1000)
+                p += 1
+            else:
+                cs.append(cur[o])
+        cs.append(z3.BoolVal(p == len(E)))
+        return VBool(z3.And(cs))
+    C.helpers["dispatch_ok"] = dispatch_ok
+
+    C.fn("SwitchController._call_handlers", params=dict(self=CSELF, switch=SWITCH, state=Int),
+         requires=[("state is 0/1", "state == 0 or state == 1")],
+         lets={},
+         ensures=[("every handler registered for the new state and not removed before its turn takes effect exactly "
+                   "once, in order; a removed handler never does",
+                   "implies(state == 0, dispatch_ok(0)) and implies(state == 1, dispatch_ok(1))")],
+         modifies=["self.registered_switches.**"], raises={}, call_ensures=[], call_modifies=[],
+         bounded="3 registered handlers per state; ms/callback/cancelled of every entry symbolic; handlers may "
+                 "cancel other handlers at every callback")
+    # the part-A contract of _call_handlers used at call sites stays an assumed one: replace it by a marker emitter
+    C.fns["SwitchController._call_handlers"].emits = marker("call_handlers", "switch", "state")
 
     C.fn("SwitchController.remove_switch_handler_obj",
          params=dict(self=BSELF, switch=SWITCH, callback=Fn, state=Int, ms=Real),
